@@ -144,6 +144,7 @@ def run_property(prop, tier, seed, args):
     covers = list(eng.covers)
     if args.verbose:
         print(f"[{prop}] {len(selected)} units, {len(obs)} obligations, {len(covers)} covers; executing took {time.time()-t0:.1f}s", flush=True)
+    os.environ.setdefault("PYVC_BUDGET_S", "1500" if tier == "quick" else "5400")
     res = solve_all(eng, obs + covers, timeout_ms=timeout_ms, cvc5_all=(tier == "thorough"), seed=seed)
     solve.close_pool()
     solver_time = sum(o.time for o in obs)
